@@ -429,8 +429,9 @@ def r4_fresh_results_and_slot_memos(ctx):
     ctx.count("single-slot memos reading a parameter", len(sites))
 
 
-from ..through_time import make_rule as _mk_tt
+from ..through_time import make_rule as _mk_tt, make_t2 as _mk_t2
 _through_time = _mk_tt("C17")
+_small_edits = _mk_t2("C17")
 
 RULES = [
     ("C17-R1", r1_roles),
@@ -438,4 +439,5 @@ RULES = [
     ("C17-R3", r3_index_builder),
     ("C17-R4", r4_fresh_results_and_slot_memos),
     ("C17-T1", _through_time),
+    ("C17-T2", _small_edits),
 ]
